@@ -48,6 +48,12 @@ def generate(rng, tier):
                         cases.append({"group": "ft", "method": mi, "name": name, "x": [v + 1 for v in x], "y": y, "dy": dy, "xout": xout,
                                       "dt": [xd, yd, dd, od], "lorch": lorch, "omitted": True,
                                       "desc": {"group": "ft", "method": name, "dtypes": "%d%d%d%d" % (xd, yd, dd, od), "lorch": lorch, "omitted": True}})
+        # the output grid as a 2-D column (n, 1): the caller's array keeps its shape (and everything else)
+        for mi, name in ((18, "fourier_transform"), (19, "F_to_G")):
+            for lorch in (False, True):
+                cases.append({"group": "ft", "method": mi, "name": name, "x": [v + 1 for v in x], "y": y, "dy": dy, "xout": xout, "dt": [1, 1, 2, 1],
+                              "lorch": lorch, "xout_col": True,
+                              "desc": {"group": "ft", "method": name, "dtypes": "1121", "lorch": lorch, "output_grid": "column (n, 1)"}})
         for d in (0, 1):
             nin, nout = (L.RN, L.GN) if d == 0 else (L.GN, L.RN)
             for a, b in itertools.product(nin, nout):
@@ -76,6 +82,9 @@ def generate(rng, tier):
     return cases
 
 
+REBIN_WINDOWS = [(0, 1, 3), (1, 1, 4), (0, 2, 4), (1, 1, 3), (0, 1, 2), (1, 2, 3), (2, 1, 4), (0, 3, 3), (1, 3, 4), (2, 2, 4), (0, 2, 2), (3, 1, 4),
+                 (0, 4, 4), (1, 1, 2), (2, 1, 3), (1, 2, 4)]
+REBIN_COUNT = [0]
 UNSIGNED = [False]
 ARRAY_CONSTS = [False]
 SINGLE = [False]
@@ -128,6 +137,8 @@ def build_call(pystog, case, force_float=False):
         return (lambda: f(x, y, d, **kw)), [x, y] + ([d] if d is not None else [])
     if g == "ft":
         x, y, xo = arr(case["x"], dt[0]), arr(case["y"], dt[1]), arr(case["xout"], dt[3])
+        if case.get("xout_col"):
+            xo = xo.reshape(-1, 1)
         d = None if dt[2] == 0 else arr(case["dy"], dt[2] - 1)
         tr = pystog.Transformer()
         k2 = {"lorch": True} if case["lorch"] else {}
@@ -203,13 +214,13 @@ def run_impl(pystog, case):
     if case["group"] == "sequence":
         return run_sequence(pystog, case)
     call, args = build_call(pystog, case)
-    before = [(a.tobytes(), a.dtype.str) for a in args]
+    before = [(a.tobytes(), a.dtype.str, a.shape, a.strides) for a in args]
     try:
         out = [None if o is None else np.asarray(o) for o in call()]
         err = None
     except Exception as e:  # recorded: a dtype-dependent exception is a dtype dependence
         out, err = [], "%s: %s" % (type(e).__name__, str(e)[:200])
-    mutated = [i for i, (a, b) in enumerate(zip(args, before)) if (a.tobytes(), a.dtype.str) != b]
+    mutated = [i for i, (a, b) in enumerate(zip(args, before)) if (a.tobytes(), a.dtype.str, a.shape, a.strides) != b]
     rep = True
     if err is None:
         for fill in (float("nan"), 3.0):
@@ -218,12 +229,31 @@ def run_impl(pystog, case):
                 out2 = [None if o is None else np.asarray(o) for o in call()]
             rep = rep and all((a is None and b is None) or (a is not None and b is not None and a.dtype == b.dtype and a.tobytes() == b.tobytes())
                               for a, b in zip(out, out2))
+    if case["group"] == "rebin" and err is None:
+        # the same call after an earlier call whose window has the same values in another number type: same result, same types
+        w1, w2 = REBIN_WINDOWS[(2 * REBIN_COUNT[0]) % len(REBIN_WINDOWS)], REBIN_WINDOWS[(2 * REBIN_COUNT[0] + 1) % len(REBIN_WINDOWS)]
+        REBIN_COUNT[0] += 1
+        xr, yr = np.array(case["x"], float), np.array(case["y"], float)
+        try:
+            a1 = [np.asarray(o) for o in pystog.Pre_Proc.rebin(xr, yr, *w1)]
+            pystog.Pre_Proc.rebin(xr, yr, *[float(v) for v in w2])
+            a2 = [np.asarray(o) for o in pystog.Pre_Proc.rebin(xr, yr, *w2)]
+            if [o.dtype.kind for o in a1] != [o.dtype.kind for o in a2]:
+                rep = False
+                hist = "rebin with the integer window %r returns arrays of kinds %r after a call with the same window as floats, %r without such a call (window %r)" % (
+                    w2, [o.dtype.kind for o in a2], [o.dtype.kind for o in a1], w1)
+            else:
+                hist = None
+        except Exception as e:
+            hist = "rebin history sequence raised %s: %s" % (type(e).__name__, str(e)[:120])
+    else:
+        hist = None
     fcall, _ = build_call(pystog, case, force_float=True)
     ref = [None if o is None else np.asarray(o, float) for o in fcall()]
     same = err is None and len(ref) == len(out) and all(
         (a is None and b is None) or (a is not None and b is not None and np.array_equal(np.asarray(a, float), b, equal_nan=True))
         for a, b in zip(out, ref))
-    res = {"error": err, "kinds": kinds(out), "mutated": mutated, "reproducible": bool(rep), "same_as_float": bool(same),
+    res = {"error": err, "history": hist, "kinds": kinds(out), "mutated": mutated, "reproducible": bool(rep), "same_as_float": bool(same),
            "out": [None if o is None else np.asarray(o, float).tolist() for o in out][:2]}
     # the material constants given as 0-d numpy arrays: same result, and the caller's arrays are not touched
     if case["group"] in ("conv", "named", "filter") and err is None:
@@ -309,7 +339,9 @@ def oracle(pystog, case, res):
         return "harness could not run the case: %s %s" % (res["exception"], res["message"])
     name = "%s with dtypes %s" % (case["name"], case["desc"]["dtypes"])
     if res["mutated"]:
-        return "%s modified its argument #%r" % (name, res["mutated"])
+        return "%s modified its argument #%r (contents, type, shape or strides)" % (name, res["mutated"])
+    if res.get("history"):
+        return res["history"]
     if res["error"]:
         return "%s raised %s for integer input" % (name, res["error"])
     if not res["reproducible"] and case["group"] == "sequence":
